@@ -54,6 +54,7 @@ struct Interp {
   State S;
   long steps = 0, maxSteps = 400000000L;
   int depth = 0;
+  int fastorCallDepth = 0;   // number of active (non-inlined) calls made from instructions of the library
   bool monitor = false;      // standing obligations are recorded only for monitored (Fastor) stages
   std::map<std::string, int> unsupported;
   std::vector<Finding> findings;
